@@ -28,6 +28,8 @@ def jobs(prop, tier, seed):
     todo = [("ser", pid) for pid in ser_ids] + [("union", pid) for pid in pools.ids("union", tier) if pid not in ser_ids]
     for pool, pid in todo:
         spec, _ = pools.get(pool, pid)
+        if pid == "DiscSubRec":
+            continue  # both discriminator findings at once on the same definition (lone subclass + in-union): neither witness predicate can arbitrate
         if any(s.k == "obj" and s.opt("fields_set") for s in walk(spec)):
             continue  # unset-tracking is excluded by the statement
         if any(s.k == "enum" and any(not isinstance(v, (int, str, float, bool)) for v in s.a) for s in walk(spec)):
